@@ -1,5 +1,6 @@
 """C14 - builders reproduce exactly the appended values; snapshots are immutable (tier L, histories)."""
 import json
+import os
 
 from hypothesis import strategies as st
 
@@ -815,5 +816,10 @@ KNOWN = {
     "tuplebuilder_index_outer_bound": _tuple_index_outer,
     "tuplebuilder_index_negative": _tuple_index_negative,
 }
+
+# validation of proposed repairs: C14_DISABLE_KNOWN=name,name,... makes the named predicates unavailable, so that a run against a
+# patched copy of the repository fails if the repaired region still misbehaves
+for _name in os.environ.get("C14_DISABLE_KNOWN", "").split(","):
+    KNOWN.pop(_name.strip(), None)
 
 SEED_CASES = []
